@@ -85,6 +85,17 @@ pub fn run_script(who: Who, script: &[InOp], sh: &Rc<Shared>, tables: &TablesWea
                     sh.log(Event::ClosureWrite { who, var: *var, op: wop.clone(), returned, dropped: false });
                 }
             }
+            InOp::WriteNested(var, wop, ivar, iop) => {
+                let t = t.borrow();
+                if let (Some(Some(v)), Some(Some(iv))) = (t.vars.get(*var), t.vars.get(*ivar)) {
+                    let mut inner: Option<Option<Val>> = None;
+                    let returned = v.write_with(wop, &mut || inner = Some(iv.write(iop)));
+                    if let Some(r) = inner {
+                        sh.log(Event::ClosureWrite { who, var: *ivar, op: iop.clone(), returned: r, dropped: false });
+                    }
+                    sh.log(Event::ClosureWrite { who, var: *var, op: wop.clone(), returned, dropped: false });
+                }
+            }
             InOp::ReadVar(var) => {
                 let t = t.borrow();
                 if let Some(Some(v)) = t.vars.get(*var) {
